@@ -15,7 +15,7 @@ var profiles = map[string]Profile{
 	"search": {Name: "search", Put: 40, Update: 8, Delete: 8, Get: 0, Query: 22, Scan: 8, Pages: 14, BatchWrite: 0, BatchGet: 0, Describe: 0, Failure: 0, Mgmt: 0,
 		CondPct: 5, BadPct: 3, Tables: 1, MaxIndexes: 2, OpsMin: 12, OpsMax: 36, ExactNums: true, NumericKeys: false, FinalObserve: false, DelBoundary: 50},
 	"cond": {Name: "cond", Put: 30, Update: 25, Delete: 22, Get: 6, Query: 2, Scan: 4, Pages: 0, BatchWrite: 0, BatchGet: 0, Describe: 1, Failure: 0, Mgmt: 0,
-		CondPct: 75, BadPct: 6, Tables: 1, MaxIndexes: 1, OpsMin: 8, OpsMax: 24, ExactNums: true, FinalObserve: true},
+		CondPct: 75, BadPct: 6, Tables: 1, MaxIndexes: 1, OpsMin: 8, OpsMax: 24, ExactNums: true, DotKeys: true, FinalObserve: true},
 	"fail": {Name: "fail", Put: 20, Update: 18, Delete: 10, Get: 6, Query: 8, Scan: 4, Pages: 2, BatchWrite: 6, BatchGet: 3, Describe: 3, Failure: 0, Mgmt: 4,
 		CondPct: 45, BadPct: 45, Tables: 1, MaxIndexes: 2, OpsMin: 8, OpsMax: 24, ExactNums: true, FinalObserve: true},
 	"emul": {Name: "emul", Put: 18, Update: 10, Delete: 8, Get: 8, Query: 6, Scan: 4, Pages: 2, BatchWrite: 12, BatchGet: 6, Describe: 3, Failure: 16, Mgmt: 2, Transact: 4,
